@@ -110,7 +110,7 @@ impl<const N: usize> ExactSizeIterator for Never<N> {
 }
 
 /// the whole snapshot against the oracle: pattern `pid`, items 0..total of which DONE[k] are published
-fn check_scored(n: &Nucleo<u32>, pid: usize, total: usize, dbg: u32) {
+fn check_scored(n: &Nucleo<u32>, pid: usize, total: usize, dbg: u32, restarted: bool) {
     let s = n.snapshot();
     let m = s.matches();
     let mut published = 0u32;
@@ -125,6 +125,12 @@ fn check_scored(n: &Nucleo<u32>, pid: usize, total: usize, dbg: u32) {
             }
         }
         k += 1;
+    }
+    if restarted {
+        // (a failed check cuts the path under Kani, so the same fact is asserted under ONE property per
+        // instance: instances with a restart speak for C12, the others for C06 / C07)
+        check!(s.item_count() == published, "C12 after a restart the item count is the number of completed pushes of the NEW stream");
+        check!(m.len() == want, "C12 after a restart the matches are exactly the matching items of the NEW stream");
     }
     check!(s.item_count() == published, "C07 once quiescent, the item count is the number of items whose push completed");
     check!(s.matched_item_count() as usize == m.len(), "C06 matched_item_count is the number of matches");
@@ -238,6 +244,7 @@ pub fn scored<const ITEMS: usize, const RESERVED: usize>(lens: u32, script: u64,
     let mut pid = 0usize;
     let mut sc = script;
     let mut settled = 0;
+    let mut restarts = 0;
     while sc != 0 {
         let d = sc % 16;
         sc /= 16;
@@ -252,7 +259,11 @@ pub fn scored<const ITEMS: usize, const RESERVED: usize>(lens: u32, script: u64,
             }
             6 => push_one(&inj, &mut total, lens),
             8 => {
-                let _ = n.tick(10);
+                // the timed lock attempt of this tick gives up (outcome 1): the run it started stays pending
+                *parking_lot::VERIF_TIMED_SEQ.get() = 1;
+                let st = n.tick(10);
+                check!(st.running, "C19 a tick whose timed lock attempt gave up reports 'running'");
+                cover!(rayon::verif_pending(), "INFO a run is left pending");
             }
             9 => {
                 pid = 0;
@@ -260,6 +271,7 @@ pub fn scored<const ITEMS: usize, const RESERVED: usize>(lens: u32, script: u64,
             }
             10 | 11 => {
                 let clear = d == 11;
+                restarts += 1;
                 n.restart(clear);
                 if clear {
                     check!(n.snapshot().item_count() == 0 && n.snapshot().matched_item_count() == 0, "C12 restart(true) empties the snapshot immediately");
@@ -279,7 +291,7 @@ pub fn scored<const ITEMS: usize, const RESERVED: usize>(lens: u32, script: u64,
                     check!(st2.changed, "C19 the tick that collects a finished run reports 'changed'");
                 }
                 check!(n.snapshot().pattern().column_pattern(0).atoms == n.pattern.column_pattern(0).atoms, "C19 a tick that reports 'not running' leaves the snapshot pattern equal to the matcher's current pattern");
-                check_scored(&n, pid, total, dbg);
+                check_scored(&n, pid, total, dbg, restarts > 0);
                 settled += 1;
             }
         }
